@@ -252,6 +252,46 @@ def _signatures(root):
     return sigs
 
 
+_RETS = None
+
+
+def _return_arities(root):
+    """{function name: n} for names whose every definition in the package
+    returns, at every return statement, a tuple display of exactly n
+    elements (n >= 2)."""
+    global _RETS
+    if _RETS is not None and _RETS[0] == root:
+        return _RETS[1]
+    table = {}
+    for dp, dn, fns in os.walk(os.path.join(root, 'dassh')):
+        for f in fns:
+            if not f.endswith('.py'):
+                continue
+            try:
+                with open(os.path.join(dp, f)) as fh:
+                    t = ast.parse(fh.read())
+            except (OSError, SyntaxError):
+                continue
+            for n in ast.walk(t):
+                if isinstance(n, (ast.FunctionDef, ast.AsyncFunctionDef)):
+                    ar = set()
+                    gen = False
+                    for x in _own_nodes(n):
+                        if isinstance(x, ast.Return):
+                            v = x.value
+                            ar.add(len(v.elts) if isinstance(v, ast.Tuple)
+                                   and not any(isinstance(e, ast.Starred)
+                                               for e in v.elts) else None)
+                        elif isinstance(x, (ast.Yield, ast.YieldFrom)):
+                            gen = True
+                    table.setdefault(n.name, []).append(
+                        None if gen or len(ar) != 1 else next(iter(ar)))
+    rets = {k: v[0] for k, v in table.items()
+            if len(set(v)) == 1 and v[0] is not None and v[0] >= 2}
+    _RETS = (root, rets)
+    return rets
+
+
 class _KwToPos(ast.NodeTransformer):
     def __init__(self, sigs):
         self.sigs = sigs
@@ -629,6 +669,40 @@ def _simple_helper(fn):
     return body
 
 
+def _mutated_through(stmts, names):
+    """names (of `names`) that are the root of a subscript/attribute store,
+    deletion or augmented assignment target, or the receiver root of a
+    method-call statement, in stmts."""
+    def root(e):
+        while isinstance(e, (ast.Subscript, ast.Attribute, ast.Starred)):
+            e = e.value
+        return e.id if isinstance(e, ast.Name) else None
+    out = set()
+    for s_ in stmts:
+        for x in ast.walk(s_):
+            tg = []
+            if isinstance(x, ast.Assign):
+                tg = list(x.targets)
+            elif isinstance(x, (ast.AugAssign, ast.AnnAssign, ast.For)):
+                tg = [x.target]
+            elif isinstance(x, ast.Delete):
+                tg = list(x.targets)
+            elif isinstance(x, ast.Expr) and isinstance(
+                    x.value, ast.Call) and isinstance(x.value.func,
+                                                      ast.Attribute):
+                tg = [x.value.func]
+            while tg:
+                t = tg.pop()
+                if isinstance(t, (ast.Tuple, ast.List)):
+                    tg.extend(t.elts)
+                elif isinstance(t, (ast.Subscript, ast.Attribute,
+                                    ast.Starred)):
+                    r = root(t)
+                    if r in names:
+                        out.add(r)
+    return out
+
+
 def _read_once_unconditionally(body, name):
     """`name` is read exactly once in the statement list, and that read is
     evaluated exactly once whenever the list is entered: it belongs to a
@@ -760,6 +834,13 @@ def _inline_helpers(tree, modname, ref, log):
                         stored |= _names(s_, ast.Store)
                     pre = []
                     sub = {}
+                    # a parameter the helper mutates (store through it, or a
+                    # method-call statement on it) denotes ONE object: an
+                    # argument that builds a fresh value must be bound once,
+                    # never re-evaluated at every use
+                    for p_ in _mutated_through(body, set(binding)):
+                        if not _pure_lookup(binding[p_]):
+                            stored.add(p_)
                     ren = {n: tag + n for n in stored}
                     for p_, a_ in binding.items():
                         if p_ in stored:
@@ -982,6 +1063,55 @@ def _restore_bool_returns(fn, rf, log, q):
                     ast.fix_missing_locations(blk[i])
                     log.append('%s: boolean return restored to if/else'
                                % q)
+    ast.fix_missing_locations(fn)
+
+
+def _conjunction_ifs(fn, rf, log, q):
+    """`if A and B: S` (no else)  <->  `if A: if B: S` (neither with an
+    else), whichever the reference has.  The two forms are the same program
+    (short-circuit evaluation, no else branch to duplicate)."""
+    ref_u = set()
+    for t, has_else, jump in rf.get('tests', []):
+        try:
+            ref_u.add(_unsigned(ast.parse(t, mode='eval').body)[0])
+        except SyntaxError:
+            pass
+    if not ref_u:
+        return
+    for _pass in range(8):
+        changed = False
+        for st, blk, i in _ifs_in_order(fn):
+            if st.orelse:
+                continue
+            t = st.test
+            if isinstance(t, ast.BoolOp) and isinstance(t.op, ast.And) and \
+                    _unsigned(t)[0] not in ref_u and all(
+                        _unsigned(v)[0] in ref_u for v in t.values):
+                inner = st.body
+                for v in reversed(t.values[1:]):
+                    nest = ast.copy_location(
+                        ast.If(test=v, body=inner, orelse=[]), st)
+                    inner = [nest]
+                txt = _n(t)
+                st.test = t.values[0]
+                st.body = inner
+                log.append('%s: `if %s` split into nested ifs' % (q, txt))
+                changed = True
+                break
+            if len(st.body) == 1 and isinstance(st.body[0], ast.If) and \
+                    not st.body[0].orelse and \
+                    _unsigned(t)[0] not in ref_u:
+                both = ast.BoolOp(op=ast.And(),
+                                  values=[t, st.body[0].test])
+                if _unsigned(both)[0] in ref_u:
+                    st.test = ast.copy_location(both, t)
+                    st.body = st.body[0].body
+                    log.append('%s: nested ifs merged into `if %s`'
+                               % (q, _n(both)))
+                    changed = True
+                    break
+        if not changed:
+            break
     ast.fix_missing_locations(fn)
 
 
@@ -2380,6 +2510,12 @@ def _merge_accumulators(fn, rf, log, q):
     ast.fix_missing_locations(fn)
 
 
+def _root_name(e):
+    while isinstance(e, (ast.Subscript, ast.Attribute, ast.Starred)):
+        e = e.value
+    return e.id if isinstance(e, ast.Name) else None
+
+
 def _merge_forwarded_locals(fn, rf, log, q):
     """A local X the reference does not know whose only read is in
     `Y = <expr of X>` (Y a recorded local not live in between) is Y under
@@ -2403,6 +2539,20 @@ def _merge_forwarded_locals(fn, rf, log, q):
                         for t in n.targets):
                     own |= {id(z) for z in ast.walk(n.value)}
             loads = [n for n in loads if id(n) not in own]
+            # nor do reads inside statements that only store THROUGH X
+            # (`X[i] = e`, `X[i] += X[j]`): they update the object X names;
+            # they must sit between X's binding and the forwarding
+            # statement, in the latter's block (checked below)
+            through = []
+            for n in _own_nodes(fn):
+                if isinstance(n, (ast.Assign, ast.AugAssign)):
+                    tg = n.targets if isinstance(n, ast.Assign) \
+                        else [n.target]
+                    if all(isinstance(t, (ast.Subscript, ast.Attribute))
+                           and _root_name(t) == x for t in tg):
+                        through.append(n)
+            thr_ids = {id(z) for n in through for z in ast.walk(n)}
+            loads = [n for n in loads if id(n) not in thr_ids]
             if len(loads) != 1 or not stores:
                 continue
             host = None
@@ -2418,6 +2568,28 @@ def _merge_forwarded_locals(fn, rf, log, q):
             y = st.targets[0].id
             if y == x or y not in ref_locs:
                 continue
+            # Y's old value must not be read by the forwarding statement
+            # itself (it would be X's after the renaming)
+            if any(isinstance(n, ast.Name) and n.id == y
+                   for n in ast.walk(st.value)):
+                continue
+            if through:
+                # straight line: X bound once in this block, then updated
+                # in place, then forwarded; Y not mentioned on the way and
+                # no jump out of the stretch
+                bind = [j for j, s_ in enumerate(blk[:k]) if isinstance(
+                    s_, ast.Assign) and any(isinstance(t, ast.Name) and
+                                            t.id == x for t in s_.targets)]
+                if len(stores) != 1 or len(bind) != 1:
+                    continue
+                seg = blk[bind[0]:k]
+                if not all(any(n is s_ for s_ in seg[1:]) for n in through):
+                    continue
+                if any((isinstance(n, ast.Name) and n.id == y) or isinstance(
+                        n, (ast.Return, ast.Break, ast.Continue, ast.Raise,
+                            ast.Try))
+                       for s_ in seg for n in ast.walk(s_)):
+                    continue
             # only `Y = X` or `Y = X[...]` (a selection of X) forwards X
             root = st.value
             while isinstance(root, (ast.Subscript, ast.Attribute)):
@@ -2513,6 +2685,100 @@ def _dissolve_built_locals(fn, rf, log, q):
             break
         if not done:
             break
+    ast.fix_missing_locations(fn)
+
+
+def _index_to_unpack(fn, rf, log, q):
+    """`T = f(..)` with T read only as `T[0]`, `T[1]`, ..  ->  the recorded
+    `L0, L1 = f(..)`.  f must be a package function whose every return is a
+    tuple display of exactly that many elements (so the unpacking cannot
+    fail and T[k] is the k-th element), T is never stored through, passed
+    on or captured, and the L's are unused names."""
+    from . import core as _core
+    groups = {}
+    for loc, defs in rf.get('defs', {}).items():
+        for d in defs:
+            m = _re.match(r'unpack(\d+):(.*)$', d, _re.S)
+            if m:
+                groups.setdefault(m.group(2), {})[int(m.group(1))] = loc
+    if not groups:
+        return
+    ref_locs = set(rf.get('locals', [])) | set(rf.get('params', []))
+    arities = None
+    for blk in _blocks(fn):
+        for i, st in enumerate(blk):
+            if not (isinstance(st, ast.Assign) and len(st.targets) == 1 and
+                    isinstance(st.targets[0], ast.Name) and
+                    isinstance(st.value, ast.Call)):
+                continue
+            T = st.targets[0].id
+            if T in ref_locs:
+                continue
+            f = st.value.func
+            fname = f.id if isinstance(f, ast.Name) else (
+                f.attr if isinstance(f, ast.Attribute) else None)
+            cand = [(txt, g) for txt, g in groups.items()
+                    if txt == _n(st.value)]
+            if not cand:
+                cand = [(txt, g) for txt, g in groups.items()
+                        if txt.startswith(_n(f) + '(')]
+            if len(cand) != 1 or fname is None:
+                continue
+            g = cand[0][1]
+            n = len(g)
+            if sorted(g) != list(range(n)) or len(set(g.values())) != n:
+                continue
+            if arities is None:
+                arities = _return_arities(_core.REPO)
+            if arities.get(fname) != n:
+                continue
+            occ = [x for x in ast.walk(fn) if isinstance(x, ast.Name)
+                   and x.id == T]
+            own = {id(x) for x in _own_nodes(fn)}
+            if any(id(x) not in own for x in occ):
+                continue
+            if sum(isinstance(x.ctx, ast.Store) for x in occ) != 1:
+                continue
+            subs = {id(x.value): x for x in _own_nodes(fn) if isinstance(
+                x, ast.Subscript) and isinstance(x.ctx, ast.Load)}
+            ok = True
+            for x in occ:
+                if isinstance(x.ctx, ast.Store):
+                    continue
+                sub = subs.get(id(x))
+                k = sub.slice if sub is not None else None
+                if isinstance(k, ast.UnaryOp) and isinstance(
+                        k.op, ast.USub) and isinstance(k.operand,
+                                                       ast.Constant):
+                    k = ast.Constant(value=-k.operand.value) if isinstance(
+                        k.operand.value, int) else None
+                if not (isinstance(k, ast.Constant) and type(k.value) is int
+                        and -n <= k.value < n):
+                    ok = False
+                    break
+            names = {x.id for x in ast.walk(fn) if isinstance(x, ast.Name)}
+            names |= {a.arg for a in ast.walk(fn) if isinstance(a, ast.arg)}
+            if not ok or set(g.values()) & names:
+                continue
+
+            class R(ast.NodeTransformer):
+                def visit_Subscript(self, node):
+                    self.generic_visit(node)
+                    if isinstance(node.value, ast.Name) and \
+                            node.value.id == T:
+                        k = node.slice
+                        v = k.value if isinstance(k, ast.Constant) \
+                            else -k.operand.value
+                        return ast.copy_location(
+                            ast.Name(id=g[v % n], ctx=ast.Load()), node)
+                    return node
+            R().visit(fn)
+            st.targets = [ast.copy_location(ast.Tuple(
+                elts=[ast.Name(id=g[j], ctx=ast.Store()) for j in range(n)],
+                ctx=ast.Store()), st.targets[0])]
+            log.append('%s: indexed result %s of %s restored to the '
+                       'unpacking %s' % (q, T, _n(f), ', '.join(
+                           g[j] for j in range(n))))
     ast.fix_missing_locations(fn)
 
 
@@ -2807,6 +3073,7 @@ def canonicalise(tree, modname, text=None):
         _loops_to_comprehensions(fn, rf, log, q)
         _unroll_literal_loops(fn, rf, log, q)
         _const_attr_access(fn, log, q)
+        _conjunction_ifs(fn, rf, log, q)
         _orient_ifs(fn, rf, log, q)
         _loops_to_reference(fn, rf, log, q)
         _SplitTupleAssign().visit(fn)
@@ -2817,7 +3084,9 @@ def canonicalise(tree, modname, text=None):
         _inline_indexed_comprehensions(fn, rf, log, q)
         _temps_and_names(fn, rf, log, q)
         _rehoist(fn, rf, log, q)
+        _index_to_unpack(fn, rf, log, q)
         _restore_bool_returns(fn, rf, log, q)
+        _conjunction_ifs(fn, rf, log, q)
         _orient_ifs(fn, rf, log, q)
         if len(log) > n0 or any(l.startswith('inlined helper')
                                 for l in log):
